@@ -4,7 +4,7 @@ import vlib
 from checks import common_pure as cp
 
 PID = "C03"
-RULE = ("seeded concurrent programs (2-16 threads, each with its own local queue + the shared queue; ops push/pop local, push/pop shared; "
+RULE = ("seeded concurrent programs (2-16 threads, each with its own local queue + the shared queue; ops push/pop local, push/pop shared, and - for the priority queue, in a third of its cases - push into the local queue of the next thread, which is what task submission from arbitrary threads does to an event loop's queue; "
         "capacities 1-256; 4 priority palettes) on the real work_steal.rs / ordered_work_steal.rs. Oracle at quiescence: no id popped twice, "
         "popped U drained == pushed, shared.len() == remaining - occupancy of locals. Engines: native stress, Miri (data-race/UB detector, "
         "-Zmiri-many-seeds), TSan in thorough. A case is non-trivial if items crossed threads AND some local could overflow; distinct = "
